@@ -72,10 +72,18 @@ func (e *TEnv) typeKey(t types.Type) string {
 		s += tt.Obj().Name()
 		if ta := tt.TypeArgs(); ta != nil && ta.Len() > 0 {
 			parts := []string{}
+			allParams := true
 			for i := 0; i < ta.Len(); i++ {
+				if _, ok := e.resolve(ta.At(i)).(*types.TypeParam); !ok {
+					allParams = false
+				}
 				parts = append(parts, e.typeKey(ta.At(i)))
 			}
-			s += "[" + strings.Join(parts, ",") + "]"
+			// inside generic code (all arguments are still type parameters) the
+			// instance is named like the generic type itself
+			if !allParams {
+				s += "[" + strings.Join(parts, ",") + "]"
+			}
 		}
 		return s
 	case *types.Alias:
